@@ -51,12 +51,49 @@ pub mod verif_access {
         Ok(catalog)
     }
 
-    /// Exactly what the SIGHUP arm of the signal loop does.
-    pub fn reload(config_path: &Path, server: &Server, catalog: &Catalog) -> Result<Arc<Catalog>> {
-        reload_zones_and_keys(&ReloadSource::Config(config_path), server, catalog)
+    /// The daemon's state across reloads, as `try_running` holds it in local
+    /// variables.
+    pub struct Daemon {
+        pub config_path: std::path::PathBuf,
+        pub server: Arc<Server>,
+        pub catalog: Arc<Catalog>,
+    }
+
+    /// The body of the `SIGHUP => { ... }` arm of the signal loop, copied
+    /// verbatim from `try_running` by mirror.py, run on the same three local
+    /// variables (`reload_source`, `server`, `catalog`).
+    #[allow(unused_mut, unused_variables, unused_assignments)]
+    pub fn sighup(d: &mut Daemon) {
+        let reload_source = ReloadSource::Config(d.config_path.as_path());
+        let server = d.server.clone();
+        let mut catalog = d.catalog.clone();
+        {
+%(SIGHUP_ARM)s
+        }
+        d.catalog = catalog;
     }
 }
 '''
+
+
+def extract_sighup_arm(text):
+    """Returns the source text between `SIGHUP => {` and its matching `}`."""
+    key = "SIGHUP => {"
+    if text.count(key) != 1:
+        die("seam moved: %r occurs %d times in run.rs" % (key, text.count(key)))
+    i = text.index(key) + len(key)
+    depth, j = 1, i
+    while j < len(text) and depth > 0:
+        ch = text[j]
+        if ch == "{":
+            depth += 1
+        elif ch == "}":
+            depth -= 1
+        j += 1
+    if depth != 0:
+        die("seam moved: unbalanced braces after SIGHUP arm")
+    return text[i:j - 1]
+
 
 CARGO_TOML = '''[package]
 name = "reload-harness"
@@ -108,10 +145,10 @@ def main():
             die("seam moved: %s does not exist" % p)
         text = open(p, encoding="utf-8").read()
         if m == "run.rs":
-            for needle in ("fn reload_zones_and_keys(", "enum ReloadSource<'a>", "fn make_tsig_key_map("):
+            for needle in ("enum ReloadSource<'a>", "fn make_tsig_key_map("):
                 if text.count(needle) != 1:
                     die("seam moved: %r occurs %d times in run.rs" % (needle, text.count(needle)))
-            text += RUN_APPEND
+            text += RUN_APPEND.replace("%(SIGHUP_ARM)s", extract_sighup_arm(text))
         write_if_changed(os.path.join(out, "src", m), text)
     main_rs = open(os.path.join(d, "main.rs"), encoding="utf-8").read()
     for needle in ("mod args;", "mod config;", "mod zones;", "mod run;"):
